@@ -11,11 +11,21 @@ func TestMain(m *testing.M) { vkit.Main(m) }
 func TestProp_Sessions(t *testing.T) { PartSess.Run(t) }
 func TestProp_Server(t *testing.T)   { PartSrv.Run(t) }
 func TestProp_Paced(t *testing.T)    { PartPaced.Run(t) }
+func TestProp_Cause(t *testing.T)    { PartCause.Run(t) }
+func TestProp_Simul(t *testing.T)    { PartSimul.Run(t) }
 func TestRace_Sessions(t *testing.T) { PartSessRace.Run(t) }
+func TestRace_Cause(t *testing.T)    { PartCauseRace.Run(t) }
+func TestRace_Simul(t *testing.T)    { PartSimulRace.Run(t) }
+func TestRace_Server(t *testing.T)   { PartSrvRace.Run(t) }
 
 func TestReplay(t *testing.T) {
 	PartSess.Replay(t, 10)
 	PartSrv.Replay(t, 5)
 	PartPaced.Replay(t, 3)
+	PartCause.Replay(t, 10)
+	PartSimul.Replay(t, 3)
 	PartSessRace.Replay(t, 10)
+	PartCauseRace.Replay(t, 10)
+	PartSimulRace.Replay(t, 3)
+	PartSrvRace.Replay(t, 5)
 }
